@@ -736,11 +736,13 @@ Decision(S, s, mt) ==
 MsgType(i) ==
   CASE i.op = "subscribe" -> "SUBSCRIBE" [] i.op = "unsubscribe" -> "UNSUBSCRIBE" [] i.op = "publish" -> "PUBLISH"
     [] i.op = "register" -> "REGISTER" [] i.op = "unregister" -> "UNREGISTER" [] i.op \in {"call", "metacall"} -> "CALL"
-    [] i.op = "cancel" -> "CANCEL" [] i.op = "yield" -> "YIELD" [] i.op = "inverror" -> "ERROR" [] OTHER -> ""
+    [] i.op = "cancel" -> "CANCEL" [] i.op = "yield" -> "YIELD" [] i.op = "inverror" -> "ERROR"
+    \* (a GOODBYE is a message like any other: refused, the session stays and is told so)
+    [] i.op = "leave" /\ i.how = "goodbye" -> "GOODBYE" [] OTHER -> ""
 TypeCode(mt) ==
   CASE mt = "SUBSCRIBE" -> T_SUBSCRIBE [] mt = "UNSUBSCRIBE" -> T_UNSUBSCRIBE [] mt = "PUBLISH" -> T_PUBLISH
     [] mt = "REGISTER" -> T_REGISTER [] mt = "UNREGISTER" -> T_UNREGISTER [] mt = "CALL" -> T_CALL
-    [] mt = "CANCEL" -> T_CANCEL [] mt = "ERROR" -> 8 [] OTHER -> T_YIELD
+    [] mt = "CANCEL" -> T_CANCEL [] mt = "ERROR" -> 8 [] mt = "GOODBYE" -> 6 [] OTHER -> T_YIELD
 
 \* a refused request changes nothing and is answered by exactly one ERROR of the
 \* request's type and id (an unacknowledged PUBLISH by nothing; a refused ERROR of a
